@@ -19,7 +19,7 @@ LEVEL = "exploration"
 RULE = ("random descriptions over 1-3 variables (all selected; entity() for one variable, set_of() otherwise; joins, "
         "negation, predicates; depth<=3), rejection-sampled on the oracle count so that the three outcome classes "
         "{0, 1, >=2 solutions} are about equally frequent; a quarter of the cases range over objects with VALUE equality "
-        "of which several are equal to each other (solutions are counted by identity); some cases give no domain at all, so the variables range over the registry, which holds instances of a subclass and of a subclass of the subclass; some use the predicate-form spelling the(T(From(d), f=v)); each description is evaluated three times with the(...) and "
+        "of which several are equal to each other (solutions are counted by identity); some cases give no domain at all, so the variables range over the registry, which holds instances of a subclass and of a subclass of the subclass; some use the predicate-form spelling the(T(From(d), f=v)); some follow an earlier query over the same variable objects (the negated description, or a join with a plain variable as first operand of ==); feature-interaction descriptions (eqlmon/ix.py), a quarter of them with a for_all over inner collections some of which are EMPTY (then the reference is the an(...) twin, not the oracle); each description is evaluated three times with the(...) and "
         "once with an(...), under ambient mode none / query / rule, caching on and off. Non-trivial: every case (each "
         "has a definite expected outcome class); distinct by structural hash; classes are counted separately.")
 LEVEL_TEXT = ("Reference-model monitoring of the outcome class and value of the(...).evaluate() against the oracle count and "
